@@ -92,6 +92,49 @@ CLAIMED = {
 }
 
 ALL = ["C%02d" % i for i in range(1, 19)]
+CLAIMED.update({
+    "C01": dict(
+        text="Theorem over every history of the one-key hybrid model (memory record, write-queue index (keeper), per-key flusher "
+             "FIFO with separate write+index and completion steps, sequence-guarded disk index with tombstones, block reclaim "
+             "with reinsertion, lookups split into start and finish, graceful restart) in every interleaving of user calls, "
+             "memory eviction, flusher steps, reclaim and restart: every answered lookup returns nothing or the version of the "
+             "latest insert no remove has followed (21-clause invariant proved for each of the 12 step kinds). Side conditions "
+             "of the theorem: no in-memory-only advice (outside C01), no remove while a disk lookup of the key is in flight "
+             "(open finding F14, kernel-checked witness), restart only when recovery's winner is the latest submission. The "
+             "pinned snapshot's reclaimer (reinsertions round-robin over the flushers, F15, fixed) is refuted by a kernel-checked "
+             "witness. Correspondence: the extracted model against the real HybridCache on deterministic histories (exact lookup "
+             "results, exact per-key entry-write counts at quiescent points, results after restart), plus a version oracle over "
+             "random histories with held flushers, gated device reads/writes, 1..3 flushers, size- and key-based admission.",
+        ref="4/C01", tech="Coq proof (invariant over a transition system) + extracted-model correspondence + version oracle",
+        note="PARTIAL where it matters: the model is the projection on one key (other keys act through the sequence counter, "
+             "shared blocks and memory pressure, all of which are step parameters); eviction and the hand-off to the pipe are one "
+             "atomic step (two user threads racing on one key are not modelled); a failed load dropping the index entry is not "
+             "modelled; compression, value sizes beyond the entry limit and the five memory algorithms are exercised by the "
+             "oracle stream only. Open finding F14 is reported as KNOWN-FINDING."),
+    "C12": dict(
+        text="Per-step theorems on the same model, valid in every state and therefore along every history: what each of insert "
+             "(each Location), eviction, lookup, remove, flusher/reclaimer steps and close adds to the list of cache-entry "
+             "submissions, for both policies, admitted/rejected, fresh/young/old entries, flush-on-close on/off; the origin fetch "
+             "of get_or_fetch starts only after a memory miss and a disk miss/error (in-flight model). Correspondence: entry "
+             "writes of the real device (decoded from logged index pages) must equal the model's submissions per key at every "
+             "quiescent point; a second, independent Python oracle prescribes the writes per step.",
+        ref="4/C12", tech="Coq proof (step lemmas over the transition system) + extracted-model correspondence + write oracle",
+        note="'an in-memory-only entry never reaches the disk' is proved per step (insert, eviction, close), the lifting to whole "
+             "histories relies on the model's bookkeeping of the advice of the resident record; throttled admission is covered "
+             "by the oracle stream only."),
+    "C15": dict(
+        text="Theorems: for every reachable state, after close() with flush-on-close under write-on-eviction the resident "
+             "version (not in-memory-only, admitted, not young) is on the device, indexed, the pipeline is empty and a lookup "
+             "returns it; it is what the reopened store returns provided recovery's winner for the key is that copy; with "
+             "flush-on-close off nothing is submitted at close; whatever a reopened store answers is the latest value. "
+             "Correspondence and oracle: histories ending in close + reopen (both policies, resident sets up to the buffer limit, "
+             "entries updated after their first write, burst close, late remove, repeated close).",
+        ref="4/C15", tech="Coq proof (progress of the drain loop + invariant) + extracted-model correspondence + persistence oracle",
+        note="PARTIAL: 'recovery picks the latest copy' is a hypothesis of the reopen theorem (it follows from the scan "
+             "reconstructing each block, C07, and sequences only growing; violated by open finding F10 when reinsertion is "
+             "configured, reported as KNOWN-FINDING); idempotent close and writes after close are checked by the oracle only."),
+})
+
 NOT_YET = "machinery for this property is not built yet in this session (design in DESIGN.md section 4)"
 
 
@@ -118,7 +161,7 @@ def main():
         hooks=dict(guard="feature verif (cargo feature on foyer-storage / foyer-memory / foyer)",
                    enable="the harness crate /verif/harness depends on /repo by path with features = [\"verif\"] where hooks exist",
                    baseline_off_cmd="cd /repo && cargo nextest run --workspace --no-fail-fast --offline --test-threads 8",
-                   source_commits=[], add_only=True),
+                   source_commits=["f533e99"], add_only=True),
         engines=[dict(name="coq+correspondence", path="/verif/check",
                       serves_properties=sorted(CLAIMED.keys()),
                       kind_free_text="Coq 8.16 theorems over hand-written Gallina models; models extracted to OCaml "
